@@ -2,13 +2,15 @@
    tables (Generated/C15_gen.v): the top-level statements up to the definition line are searched,
    every lambda in them whose line span contains the definition line is a candidate, then the decision
    rules (one candidate / none / narrowing by signature) are applied in order.
-   A lambda is (identity, first line, last line, signature); a signature is four lists of names
-   (positional, *vararg, **kwarg, keyword-only), names are numbers.  No proofs in this file. *)
+   A lambda is (identity, first line, last line, signature); a signature is five lists of names
+   (positional-only, positional, *vararg, **kwarg, keyword-only), names are numbers.  No proofs in this file. *)
 From Coq Require Import List Arith Bool.
 Import ListNotations.
 Require Import MV.Lexer.LambdaSyntax.
 
-Record sigt : Set := mksig { s_args : list nat; s_vararg : list nat; s_kwarg : list nat; s_kwonly : list nat }.
+Record sigt : Set := mksig { s_posonly : list nat; s_args : list nat; s_vararg : list nat; s_kwarg : list nat; s_kwonly : list nat }.
+(* what inspect.getfullargspec reports for a function with that signature: positional-only names are part of args *)
+Definition spec_of (s : sigt) : sigt := mksig [] (s_posonly s ++ s_args s) (s_vararg s) (s_kwarg s) (s_kwonly s).
 Record lam : Set := mklam { l_id : nat; l_min : nat; l_max : nat; l_sig : sigt }.
 Definition node : Set := (nat * list lam)%type.      (* lineno of a top-level statement, its lambdas in walk order *)
 
@@ -16,6 +18,7 @@ Definition names_eqb (a b : list nat) : bool := if list_eq_dec Nat.eq_dec a b th
 Definition comp_eqb (c : component) (a b : sigt) : bool :=
   match c with
   | CompArgs => names_eqb (s_args a) (s_args b)
+  | CompArgsPos => names_eqb (s_posonly a ++ s_args a) (s_args b)
   | CompVararg => names_eqb (s_vararg a) (s_vararg b)
   | CompKwarg => names_eqb (s_kwarg a) (s_kwarg b)
   | CompKwonly => names_eqb (s_kwonly a) (s_kwonly b)
@@ -75,6 +78,9 @@ Definition rule_ok (r : rule) : bool :=
   | _ => false
   end.
 Definition rules_ok (rules : list rule) : bool := forallb rule_ok rules.
+(* every compared component is one on which a lambda agrees with its own argspec *)
+Definition comps_complete (comps : list component) : bool :=
+  forallb (fun c => match c with CompArgs => false | _ => true end) comps.
 Definition span_ok (ops : cmpop * cmpop) : bool :=
   match ops with (OpLe, OpLe) => true | _ => false end.
 
